@@ -67,4 +67,39 @@ mod verif_det {
         kani::cover!(true);
         std::mem::forget((a, b, c, d, e, f, u, i, x, m));
     }
+
+    /// what `RandomState::new()` would give in a real process: anything but the fixed keys
+    fn stub_process_random_state() -> RandomState {
+        unsafe { std::mem::transmute::<(u64, u64), RandomState>((0x1234, 0x5678)) }
+    }
+
+    /// C20.collections.hasher_is_fixed [K: element-free; every constructor and every set operator]: whatever way a
+    /// deterministic map/set comes into existence, its hasher state is the fixed one -- never `RandomState::new()`
+    /// (which is stubbed to a recognisable non-fixed value, as in a real process).
+    #[kani::proof]
+    #[kani::unwind(6)]
+    #[kani::stub(std::hash::RandomState::new, stub_process_random_state)]
+    fn c20_collections_hasher_is_fixed() {
+        let m1: HashMap<u8, u8> = HashMap::new();
+        let m2: HashMap<u8, u8> = HashMap::with_capacity(0);
+        let m3: HashMap<u8, u8> = Default::default();
+        let m4: HashMap<u8, u8> = std::iter::empty().collect();
+        let m5: HashMap<u8, u8> = HashMap::from(StdHashMap::<u8, u8, RandomState>::with_hasher(stub_process_random_state()));
+        assert!(keys(m1.hasher()) == (0, 0) && keys(m2.hasher()) == (0, 0) && keys(m3.hasher()) == (0, 0));
+        assert!(keys(m4.hasher()) == (0, 0) && keys(m5.hasher()) == (0, 0));
+        let s1: HashSet<u8> = HashSet::new();
+        let s2: HashSet<u8> = HashSet::with_capacity(0);
+        let s3: HashSet<u8> = Default::default();
+        let s4: HashSet<u8> = std::iter::empty().collect();
+        let s5: HashSet<u8> = HashSet::from(StdHashSet::<u8, RandomState>::with_hasher(stub_process_random_state()));
+        assert!(keys(s1.hasher()) == (0, 0) && keys(s2.hasher()) == (0, 0) && keys(s3.hasher()) == (0, 0));
+        assert!(keys(s4.hasher()) == (0, 0) && keys(s5.hasher()) == (0, 0));
+        let u = &s1 | &s2;
+        let i = &s1 & &s2;
+        let x = &s1 ^ &s2;
+        let d = &s1 - &s2;
+        assert!(keys(u.hasher()) == (0, 0) && keys(i.hasher()) == (0, 0) && keys(x.hasher()) == (0, 0) && keys(d.hasher()) == (0, 0));
+        kani::cover!(true);
+        std::mem::forget((m1, m2, m3, m4, m5, s1, s2, s3, s4, s5, u, i, x, d));
+    }
 }
